@@ -27,3 +27,11 @@ def c01_dump_counters(sc, rec):
     st = _steps(sc)
     idx = [i for i, s in enumerate(st) if s in ('dump_to_path', 'dump_to_zip')]
     return bool(idx) and idx[0] < len(st) - 1
+
+
+def c09_stats_bytes_include_descriptor(sc, rec):
+    """stats['bytes'] returned by process() exceeds the bytes recorded in the written descriptor by exactly the size of
+    datapackage.json itself (the dumper adds the descriptor's own size to its counter after the descriptor was serialised)."""
+    d = rec.get('detail') or {}
+    return (rec.get('clause') == 'stats-vs-descriptor' and rec.get('key') == 'bytes+descriptor' and d.get('stat_key') == 'bytes'
+            and isinstance(d.get('stat'), int) and isinstance(d.get('recorded'), int) and d['stat'] - d['recorded'] == d.get('desc_size'))
